@@ -31,6 +31,7 @@ use std::fmt::Write as _;
 pub enum Tok { T0, T1, T2, T3, T4, T5, T6, T7, Mark }
 #[derive(Clone, Debug, PartialEq, Default)]
 pub struct Loc(pub usize);
+pub trait Mk<'a> {}
 
 pub fn esc(s: &str) -> String {
     let mut o = String::from("\"");
